@@ -6,7 +6,7 @@ import ast
 from ..absval import Lin, Undecided
 from ..core import (AnalysisError, call_name, const, dotted, is_const, kwarg, local_defs, norm,
                     origin, parent_map, walk_local)
-from ..facts import guards_of, mentions, recv_calls, returns_of, unpack_of, assigned_subscripts, enclosing_loops
+from ..facts import helper_by_role, guards_of, mentions, recv_calls, returns_of, unpack_of, assigned_subscripts, enclosing_loops
 from ..rules.nonmut import is_deepcopy, mutations
 from ..pattern import pmatch, pfind, pall
 from ..shape import SymTuple, atom, pretty, sym_eval, sym_tuple, tri, walk_paths
@@ -247,7 +247,27 @@ def bond_glue(rep):
     hu_hv = pfind("$hu, $hv = ($m.get($u), $m.get($v))", lp, {"u": u, "v": v})
     from ..facts import enclosing_loops
     mloop = enclosing_loops(pm, lp, fi.node)
-    ok = len(hu_hv) == 1 and bool(mloop) and norm(mloop[0].target) == hu_hv[0][1]["m"]
+    def is_current_match(name, depth=3):
+        """the loop's own match variable, a copy of it, or its completion by add_wildcard_subgraph_for_unmapped(.., match)"""
+        if not mloop:
+            return False
+        if norm(mloop[0].target) == name:
+            return True
+        ds = [d_ for d_ in local_defs(mloop[0]).get(name, []) if d_.kind in ("assign", "unpack")]
+        if not ds or depth == 0:
+            return False
+        for d_ in ds:
+            v_ = d_.value
+            if isinstance(v_, ast.Name) and not d_.index:
+                if not is_current_match(v_.id, depth - 1):
+                    return False
+            elif isinstance(v_, ast.Call) and call_name(v_) == "add_wildcard_subgraph_for_unmapped" and len(v_.args) == 3 and isinstance(v_.args[2], ast.Name):
+                if not (v_.args[2].id == name or is_current_match(v_.args[2].id, depth - 1)):
+                    return False
+            else:
+                return False
+        return True
+    ok = len(hu_hv) == 1 and bool(mloop) and is_current_match(hu_hv[0][1]["m"])
     rep.ob("O3.3", "SRC", fi, ok, hu_hv[0][0] if hu_hv else lp, "template bond end points are translated through the current match")
     # node loop: glue host node m[rc_n] with template node rc_n
     ng = pfind("SynReactor._node_glue($its.nodes[$hn], rc.nodes[$rn])", fi.node, into_nested=False)
@@ -306,8 +326,20 @@ def parity(rep):
 def schema(rep):
     order = _writer_order(rep)
     gg = rep.f(SR, "SynReactor._glue_graph")
-    tg = rep.f(SR, "SynReactor._glue_graph.<locals>._default_tg")
-    tup = [n for n in walk_local(tg.node) if isinstance(n, ast.Tuple) and n.elts and all(isinstance(e, ast.Call) and call_name(e) == "get" for e in n.elts)]
+    # the builder of a default typesGH entry: the helper of _glue_graph that holds the tuple of attribute look-ups (found by role, not by name)
+    def _get_tuples(node):
+        return [n for n in walk_local(node) if isinstance(n, ast.Tuple) and len(n.elts) >= 4 and all(isinstance(e, ast.Call) and call_name(e) == "get" for e in n.elts)]
+    def _builds_default(f_):
+        # ... and returns it (directly or through a local): helpers that merely use the builder do not count
+        tups = _get_tuples(f_.node)
+        fdefs = local_defs(f_.node)
+        return bool(tups) and any(any(x is t_ for t_ in tups for e_ in ([r_.value] + [origin(fdefs, y) for y in ast.walk(r_.value) if isinstance(y, ast.Name)]) for x in ast.walk(e_))
+                                  for r_ in returns_of(f_.node) if r_.value is not None)
+    cands = helper_by_role(rep.repo.module(SR), gg, _builds_default)
+    if len(cands) != 1:
+        raise AnalysisError(f"default typesGH builder of _glue_graph not identified ({len(cands)} candidates)")
+    tg = rep.touch(cands[0])
+    tup = _get_tuples(tg.node)
     rep.need("R3a", len(tup), 1, "_default_tg tuple")
     keys = [const(e.args[0]) for e in tup[0].elts]
     rep.ob("O3.5", "R3a", tg, keys == order, tup[0], "default typesGH of substrate atoms follows the ITS writer order",
